@@ -472,6 +472,14 @@ func (fv *FuncVC) ghostAfter(key string, n int, site ssa.Instruction, results []
 		for i, r := range results {
 			if i < len(fc.Results) {
 				env.vars["res_"+fc.Results[i].Name] = r
+				if a, ok := fv.lastAbs[fc.Results[i].Name]; ok {
+					env.vars["abs_"+fc.Results[i].Name] = a
+				}
+			}
+		}
+		for k, a := range fv.lastAbs {
+			if strings.HasPrefix(k, "arg:") {
+				env.vars["abs_"+k[4:]] = a
 			}
 		}
 		v := env.expr(c.E, c.Pos)
@@ -525,6 +533,8 @@ func (fv *FuncVC) applyContract(site ssa.Instruction, fc *FuncContract, key stri
 	env.vars = map[string]Term{}
 	// concrete byte slices handed to a callee that treats them as an abstract accumulator (A-APPEND)
 	var concArg *Term
+	var concName string
+	var concAbs Term
 	for i, f := range formals {
 		a := args[i]
 		if a.T == nil {
@@ -539,6 +549,7 @@ func (fv *FuncVC) applyContract(site ssa.Instruction, fc *FuncContract, key stri
 			ab := fv.freshConst("abs."+mangle(f.Name), SBSeq)
 			fv.assumeHere(eq(mk(SInt, "slen", ab), slLen(a)))
 			a = ab
+			concName, concAbs = f.Name, ab
 		}
 		env.vars[f.Name] = a
 	}
@@ -599,15 +610,28 @@ func (fv *FuncVC) applyContract(site ssa.Instruction, fc *FuncContract, key stri
 			fv.assume(fv.TE.rangeFact(r, rt))
 		}
 		env.vars[name] = r
-		if sortS == SBSeq && concArg != nil {
-			r = fv.concretize(short, name, r, *concArg, pre, rt)
-		}
 		results = append(results, r)
 	}
 	// postconditions are evaluated in the new state, old() in pre
 	env.st = fv.cur
 	for _, c := range fc.Ensures {
 		fv.assumeHere(env.boolExpr(c.E, c.Pos))
+	}
+	// concrete reading of abstract accumulator results: the postconditions above speak about
+	// memory before the accumulator's bytes were written (the value is read, then written out)
+	fv.lastAbs = map[string]Term{}
+	if concArg != nil {
+		fv.lastAbs["arg:"+concName] = concAbs
+	}
+	for i, r := range results {
+		if r.Sort == SBSeq && concArg != nil {
+			name := fmt.Sprintf("$%d", i)
+			if i < len(fc.Results) {
+				name = fc.Results[i].Name
+			}
+			fv.lastAbs[name] = r
+			results[i] = fv.concretize(short, name, r, *concArg, pre, r.T)
+		}
 	}
 	if m, ok := fv.cur.heaps["M"]; ok {
 		if pm, ok2 := pre.heaps["M"]; !ok2 || pm.S != m.S {
